@@ -138,7 +138,7 @@ pub struct RecWasm {
 impl Wasm<XMsg, XQuery> for RecWasm {
     fn execute(&self, api: &dyn Api, storage: &mut dyn Storage, router: &dyn CosmosRouter<ExecC = XMsg, QueryC = XQuery>, block: &BlockInfo, sender: Addr, msg: WasmMsg) -> AnyResult<AppResponse> {
         let target = match &msg {
-            WasmMsg::Execute { contract_addr, .. } => contract_addr.clone(),
+            WasmMsg::Execute { contract_addr, .. } | WasmMsg::Migrate { contract_addr, .. } => contract_addr.clone(),
             WasmMsg::Instantiate { .. } => "<instantiate>".to_string(),
             other => format!("{:?}", other).chars().take(40).collect(),
         };
@@ -272,8 +272,19 @@ pub enum What {
     Sudo(S),
 }
 
+/// entry point of the emitting contract from which the routed message is returned
+#[derive(Clone, Copy, Debug, Serialize, Deserialize, PartialEq, Eq, Default)]
+pub enum Via {
+    #[default]
+    Execute,
+    Migrate,
+    Sudo,
+}
+
 #[derive(Clone, Debug, Serialize, Deserialize)]
 pub struct Case {
+    #[serde(default)]
+    pub via: Via,
     /// bank, custom, staking, distribution, ibc, gov, stargate
     pub modes: Vec<Mode>,
     pub origin: Origin,
@@ -307,6 +318,8 @@ struct Built {
     puppets: Vec<Addr>,
     lifted: Vec<Addr>,
     helper: Addr,
+    puppet_code: u64,
+    lifted_code: u64,
 }
 
 fn build(modes: &[Mode]) -> Built {
@@ -331,15 +344,20 @@ fn build(modes: &[Mode]) -> Built {
             let v2 = Validator::new("validator2".to_string(), Decimal::percent(5), Decimal::percent(20), Decimal::percent(1));
             router.staking.inner.add_validator(api, storage, &mock_env().block, v2).unwrap();
         });
-    let mut b = Built { app, user: user.clone(), other, puppets: vec![], lifted: vec![], helper: Addr::unchecked("") };
+    let mut b = Built { app, user: user.clone(), other, puppets: vec![], lifted: vec![], helper: Addr::unchecked(""), puppet_code: 0, lifted_code: 0 };
     let pc = b.app.store_code(make_code(0, Family::Puppet, None));
     let lc = b.app.store_code(make_code(1, Family::WrappedFull, None));
     // instantiation runs puppet code: give it an empty plan
     install(BTreeMap::new(), BTreeMap::new(), BTreeMap::new());
+    b.puppet_code = pc;
+    b.lifted_code = lc;
     for i in 0..3 {
-        let a = b.app.instantiate_contract(pc, user.clone(), &PMsg { n: 9999 }, &[], format!("p{}", i), None).unwrap();
+        // every chain contract is administered by its predecessor in the chain (the user for the first)
+        let admin = if i == 0 { user.to_string() } else { b.puppets[i - 1].to_string() };
+        let a = b.app.instantiate_contract(pc, user.clone(), &PMsg { n: 9999 }, &[], format!("p{}", i), Some(admin)).unwrap();
         b.puppets.push(a);
-        let a = b.app.instantiate_contract(lc, user.clone(), &PMsg { n: 9999 }, &[], format!("l{}", i), None).unwrap();
+        let admin = if i == 0 { user.to_string() } else { b.lifted[i - 1].to_string() };
+        let a = b.app.instantiate_contract(lc, user.clone(), &PMsg { n: 9999 }, &[], format!("l{}", i), Some(admin)).unwrap();
         b.lifted.push(a);
     }
     b.helper = b.app.instantiate_contract(pc, user.clone(), &PMsg { n: 9999 }, &[], "helper", None).unwrap();
@@ -528,13 +546,25 @@ impl RoutingCheck {
                 // the real stake keeper moves the delegated coins through the bank module
                 let ok = accepts(mode, k) && !(matches!(k, K::Delegate(_)) && mode == Mode::Default && case.modes[0] == Mode::Fail);
                 let emitter: Addr = chain.last().cloned().unwrap_or(b.user.clone());
+                // how the emitting contract's entry point is reached
+                let via = match case.via {
+                    Via::Sudo if chain.len() == 1 => Via::Sudo,
+                    Via::Migrate if !chain.is_empty() => Via::Migrate,
+                    _ => Via::Execute,
+                };
+                let code_id = if case.origin == Origin::Lifted { b.lifted_code } else { b.puppet_code };
                 // plan: node i at chain[i] forwards to chain[i+1]; the last one emits [sibling?, msg]
                 let mut nodes: BTreeMap<usize, NodeRt> = BTreeMap::new();
                 let mut lookup = BTreeMap::new();
                 for i in 0..chain.len() {
                     let mut n = NodeRt { writes: vec![Write::Set(Hx(b"w".to_vec()), Hx(vec![1 + i as u8]))], ..Default::default() };
                     if i + 1 < chain.len() {
-                        let m: CosmosMsg<XMsg> = WasmMsg::Execute { contract_addr: chain[i + 1].to_string(), msg: to_json_binary(&PMsg { n: i + 1 }).unwrap(), funds: vec![] }.into();
+                        let into_emitter = i + 2 == chain.len();
+                        let m: CosmosMsg<XMsg> = if into_emitter && via == Via::Migrate {
+                            WasmMsg::Migrate { contract_addr: chain[i + 1].to_string(), new_code_id: code_id, msg: to_json_binary(&PMsg { n: i + 1 }).unwrap() }.into()
+                        } else {
+                            WasmMsg::Execute { contract_addr: chain[i + 1].to_string(), msg: to_json_binary(&PMsg { n: i + 1 }).unwrap(), funds: vec![] }.into()
+                        };
                         n.subs.push(SubMsg { id: 1, payload: Binary::default(), msg: m, gas_limit: None, reply_on: ReplyOn::Never });
                     } else {
                         if case.sibling {
@@ -552,8 +582,21 @@ impl RoutingCheck {
                 let _ = take_rlog();
                 let app = &mut b.app;
                 let user = b.user.clone();
-                let top: CosmosMsg<XMsg> = if chain.is_empty() { msg.clone() } else { WasmMsg::Execute { contract_addr: chain[0].to_string(), msg: to_json_binary(&PMsg { n: 0 }).unwrap(), funds: vec![] }.into() };
-                let res = catch(|| app.execute(user, top).map(|_| ()).map_err(|e| e.to_string()));
+                let top: CosmosMsg<XMsg> = if chain.is_empty() {
+                    msg.clone()
+                } else if chain.len() == 1 && via == Via::Migrate {
+                    WasmMsg::Migrate { contract_addr: chain[0].to_string(), new_code_id: code_id, msg: to_json_binary(&PMsg { n: 0 }).unwrap() }.into()
+                } else {
+                    WasmMsg::Execute { contract_addr: chain[0].to_string(), msg: to_json_binary(&PMsg { n: 0 }).unwrap(), funds: vec![] }.into()
+                };
+                let sudo_target = chain.first().cloned();
+                let res = catch(|| {
+                    if via == Via::Sudo {
+                        app.wasm_sudo(sudo_target.unwrap(), &PMsg { n: 0 }).map(|_| ()).map_err(|e| e.to_string())
+                    } else {
+                        app.execute(user, top).map(|_| ()).map_err(|e| e.to_string())
+                    }
+                });
                 let (trace, _) = take_trace();
                 let log = take_rlog();
                 let res = match res {
@@ -567,6 +610,9 @@ impl RoutingCheck {
                 let wasm_seen: Vec<(String, String)> = log.iter().filter(|e| e.slot == "wasm" && e.op == "exec").map(|e| (e.sender.clone(), e.payload.clone())).collect();
                 let mut wasm_want: Vec<(String, String)> = vec![];
                 for (i, c) in chain.iter().enumerate() {
+                    if via == Via::Sudo && i == 0 {
+                        continue; // reaches the module through Wasm::sudo, not Wasm::execute
+                    }
                     wasm_want.push((if i == 0 { b.user.to_string() } else { chain[i - 1].to_string() }, c.to_string()));
                 }
                 if case.sibling && !chain.is_empty() {
@@ -603,7 +649,7 @@ impl RoutingCheck {
                     if let Some(r) = replies.first() {
                         ensure!(r.reply.as_ref().map(|x| (x.ok, x.id, x.payload.as_slice())) == Some((ok, 7, &b"pl"[..])) && r.contract == emitter.as_str(), "C17:reply-content", "{:?}: reply {:?} at {}", k, r.reply, r.contract);
                     }
-                    let entered: Vec<&str> = trace.iter().filter(|e| e.kind == Kind::Execute).map(|e| e.contract.as_str()).collect();
+                    let entered: Vec<&str> = trace.iter().filter(|e| matches!(e.kind, Kind::Execute | Kind::Migrate | Kind::Sudo)).map(|e| e.contract.as_str()).collect();
                     let mut want: Vec<&str> = chain.iter().map(|a| a.as_str()).collect();
                     if case.sibling {
                         want.push(b.helper.as_str());
@@ -611,6 +657,7 @@ impl RoutingCheck {
                     ensure!(entered == want, "C17:call-chain", "{:?}: entered {:?}, expected {:?}", k, entered, want);
                 }
                 cx.label(&format!("exec:{}:{:?}:{:?}", eslot, case.origin, mode));
+                cx.label(&format!("emitted-from:{:?}", via));
                 if (slot != 0 && !chain.is_empty()) || case.origin == Origin::Lifted || (!ok && case.sibling) {
                     cx.mark_nontrivial();
                 }
@@ -750,7 +797,12 @@ impl Check for RoutingCheck {
             2 => RO::Error,
             _ => RO::Always,
         };
-        Case { modes, origin, depth: 1 + g.below(3) as u8, what, reply_on, sibling: g.bool() }
+        let via = match g.weighted(&[3, 2, 1]) {
+            0 => Via::Execute,
+            1 => Via::Migrate,
+            _ => Via::Sudo,
+        };
+        Case { via, modes, origin, depth: 1 + g.below(3) as u8, what, reply_on, sibling: g.bool() }
     }
 
     fn execute(&self, case: &Case, cx: &mut Cx) -> Result<(), Failure> {
@@ -769,7 +821,9 @@ impl Check for RoutingCheck {
                     for reply_on in [RO::Never, RO::Always] {
                         let mut modes = vec![Mode::Default; 7];
                         modes[slot_of(k)] = mode;
-                        out.push(Case { modes, origin, depth: 1, what: What::Exec(k.clone()), reply_on, sibling: reply_on == RO::Never });
+                        for via in [Via::Execute, Via::Migrate, Via::Sudo] {
+                            out.push(Case { via, modes: modes.clone(), origin, depth: 1, what: What::Exec(k.clone()), reply_on, sibling: reply_on == RO::Never });
+                        }
                     }
                 }
             }
@@ -778,7 +832,7 @@ impl Check for RoutingCheck {
         for q in &queries {
             for origin in [Origin::Top, Origin::Puppet, Origin::Lifted] {
                 for mode in [Mode::Default, Mode::Accept, Mode::Fail] {
-                    out.push(Case { modes: vec![mode; 7], origin, depth: 2, what: What::Query(q.clone()), reply_on: RO::Never, sibling: false });
+                    out.push(Case { via: Via::Execute, modes: vec![mode; 7], origin, depth: 2, what: What::Query(q.clone()), reply_on: RO::Never, sibling: false });
                 }
             }
         }
@@ -794,6 +848,11 @@ impl Check for RoutingCheck {
         if case.depth > 1 {
             let mut c = case.clone();
             c.depth = 1;
+            out.push(c);
+        }
+        if case.via != Via::Execute {
+            let mut c = case.clone();
+            c.via = Via::Execute;
             out.push(c);
         }
         if case.sibling {
